@@ -63,8 +63,8 @@ def _run_one(args):
 
 # generic form of the runner used by the property modules
 def explore(check, obs, configs, limit=None, invariants=('NoFault', 'NoForeignSignal', 'RunLive', 'CascadeShape')):
-    if limit is None and check.tier == 'quick':
-        limit = 12000
+    if limit is None:
+        limit = 12000 if check.tier == 'quick' else 250000
     runs = []
     for label, consts in configs:
         ws = check.witnesses(label, consts, emit='EmitOps', invariants=list(invariants),
@@ -92,3 +92,39 @@ def run_many(progs, nroots, procs=16, starts=None):
     ctx = multiprocessing.get_context('fork')
     with ctx.Pool(procs) as pool:
         return pool.map(_run_one, jobs, chunksize=200)
+
+
+def kernel_traces(check, nstorm):
+    """K-level traces (harness/ktrace.py): the repository's own test suite and random programs, in subprocesses"""
+    import json
+    import os
+    import subprocess
+    here = os.path.dirname(os.path.abspath(__file__))
+    repo = os.environ.get('VERIF_REPO', '/repo')
+    env = dict(os.environ, PYTHONPATH=repo + ':' + here, PYTHONDONTWRITEBYTECODE='1')
+    traces = []
+    out1 = os.path.join(check.tmp, 'ktrace_suite.json')
+    p = subprocess.run(['/venv/bin/python', '-m', 'pytest', '-q', '-p', 'no:cacheprovider', '-p', 'ktrace', '--timeout=900',
+                        '--deselect', 'usim_pytest/test_core.py'],
+                       cwd=repo, env=dict(env, VERIF_KTRACE_OUT=out1), stdout=subprocess.PIPE, stderr=subprocess.STDOUT, text=True)
+    suite = []
+    if os.path.exists(out1):
+        with open(out1) as fh:
+            suite = json.load(fh)
+    out2 = os.path.join(check.tmp, 'ktrace_storm.json')
+    subprocess.run(['/venv/bin/python', '-W', 'ignore', os.path.join(here, 'kworker.py'), out2, str(check.seed), str(nstorm)],
+                   env=env, stdout=subprocess.PIPE, stderr=subprocess.STDOUT, text=True)
+    storm_tr = []
+    if os.path.exists(out2):
+        with open(out2) as fh:
+            storm_tr = json.load(fh)
+    check.extra['kernel_traces'] = {'repository_test_suite_loops': len(suite), 'random_program_loops': len(storm_tr)}
+    return [({'source': 'repository test suite under -p ktrace', 'loop': i}, t, 0) for i, t in enumerate(suite)] + \
+           [({'source': 'random program under ktrace', 'loop': i}, t, 0) for i, t in enumerate(storm_tr)]
+
+
+def judge_kernel(check, runs, prefix):
+    """ObsK verdicts; only the clauses of this property (C01.* or C02.*) are reported by its check"""
+    for idx, clause, pos in check.validate('ObsK', [r[1] for r in runs], label='kernel'):
+        if clause.startswith(prefix):
+            check.report(clause, runs[idx][0], runs[idx][1], pos, extra={'NRoots': 0})
